@@ -168,7 +168,7 @@ def variant_game(rng, base, kind=None):
     kinds: players (one state handed to the other player), reward, rewire (one transition
     points elsewhere: same counts, other wiring), nudge (one probability moved by 4e-7)."""
     g = copy.deepcopy(base)
-    kind = kind or rng.choice(["players", "reward", "rewire", "rewire", "nudge", "nudge"])
+    kind = kind or rng.choice(["players", "reward", "rewire", "rewire", "nudge", "nudge", "permute", "permute"])
     try:
         n = len(g["players"])
         tl = g["transition_list"]
@@ -179,6 +179,17 @@ def variant_game(rng, base, kind=None):
                 g["players"][i] = P2 if g["players"][i] == P1 else P1
                 return g, kind
             kind = "reward"
+        if kind == "permute":
+            # the same transitions listed in another order inside one or two states
+            rows = [i for i in range(n) if len(tl[i]) >= 2 and len(set(map(repr, tl[i]))) >= 2]
+            if rows:
+                for i in rng.sample(rows, min(len(rows), 2)):
+                    row = list(tl[i])
+                    while row == tl[i]:
+                        rng.shuffle(row)
+                    tl[i] = row
+                return g, kind
+            kind = "rewire"
         if kind == "rewire":
             cands = [(i, j) for i in range(n) for j in range(len(tl[i])) if n > 1]
             rng.shuffle(cands)
